@@ -6,7 +6,7 @@
    norepeat c (no repeatPolicy step; those belong to C05). *)
 From Coq Require Import List.
 Import ListNotations.
-From BD.Sched Require Import Model Proofs ProofsFinal ProofsTerm Examples.
+From BD.Sched Require Import Model Proofs ProofsFinal ProofsTerm Replay ReplayProofs ProofsTrace Examples.
 
 (* In every reachable state of every configuration with maxActiveRuns = k > 0 - that is after every prefix of
    every execution, whatever the DAG, the outcomes and the interleaving - at most k nodes are in state running
@@ -18,6 +18,13 @@ Theorem C15_bound : forall c : cfg, donech c = true -> norepeat c ->
     retrywait_count c s <= maxActive c /\ exec_count c s <= maxActive c.
 Proof. exact C15_bound_all. Qed.
 Print Assumptions C15_bound.
+
+(* ... hence on the VISIBLE trace (entries/exits of the executor's Run) of every execution the number of open Run calls
+   never exceeds k: mon_open is the untimed part of the monitor the check evaluates on the real scheduler's traces. *)
+Theorem C15_on_every_trace : forall c : cfg, donech c = true -> norepeat c ->
+  forall ls s, maxActive c > 0 -> run c (init c) ls = Some s -> mon_open (maxActive c) [] (vis ls) = true.
+Proof. exact mon_open_holds. Qed.
+Print Assumptions C15_on_every_trace.
 
 (* a step waiting out its retry interval keeps status running, i.e. occupies a slot (unless the run was stopped) *)
 Theorem C15_retrywait_is_running : forall c : cfg, donech c = true -> norepeat c ->
